@@ -223,6 +223,13 @@ def _do_convert(w: World, op: dict, idx: int, log: EventLog, viol: list, stats: 
         op_exec["fault"] = {"k": k, "exc": exc_name}
     executed.append(op_exec)
     if w.control:
+        try:
+            import jax as _jax
+
+            sds = [_jax.ShapeDtypeStruct(a.shape, a.dtype) for a in prog.make_inputs(0)]
+            _jax.eval_shape(lambda *a: prog.fn(*a, **(prog.kwargs.get("input_params") or {})), *sds)
+        except BaseException:  # noqa: BLE001
+            pass
         log.add(i=idx, op="convert", pid=pid, control=True)
         return
 
@@ -531,11 +538,14 @@ def control_plan(plans: list[dict]) -> dict:
     """No conversions: the same eager probes under both ambient flag values,
     plus a full sweep, to produce expectations and measured namespace noise."""
     pids: list[str] = []
+    conv: list[str] = []
     for p in plans:
         for o in p["ops"]:
             if o["op"] == "eager" and o["pid"] not in pids:
                 pids.append(o["pid"])
-    ops: list[dict] = []
+            if o["op"] == "convert" and o["pid"] not in conv:
+                conv.append(o["pid"])
+    ops: list[dict] = [{"op": "convert", "pid": c} for c in conv]
     for val in (False, True):
         ops.append({"op": "set_x64", "value": val})
         for pid in pids:
@@ -569,9 +579,9 @@ def main(tier: str) -> int:
     for name in enum_names:
         # quick: the flat program exhaustively, programs with re-entrant
         # activations on a seeded 1-in-8 lattice; thorough: everything exhaustively
-        stride = 1 if (tier == "thorough" or name == "flat") else int(os.environ.get("VERIF_C13_STRIDE", "8"))
+        stride = 1 if (tier == "thorough" or name == "flat") else int(os.environ.get("VERIF_C13_STRIDE", "16"))
         strides[name] = stride
-        shards = 16 if tier == "thorough" else (4 if name == "flat" else 6)
+        shards = 16 if tier == "thorough" else (8 if name == "flat" else 4)
         off = rng("c13-offset", seed, name).randrange(stride)
         for s in range(shards):
             enum_plans.append({"property": PROP, "hashseed": 0, "kind": "enum", "report_unfinished": False, "ops": [{"op": "enum", "pid": FIX + name, "shard": [s, shards], "stride": stride, "offset": off}]})
@@ -607,6 +617,10 @@ def main(tier: str) -> int:
             hsigs.add(r["history_sig"])
         n_unfinished += r.get("n_unfinished", 0)
     wall = max(time.time() - t0, 1e-6)
+    walls: dict[str, list] = {}
+    for p_, r_ in zip(plans, results):
+        if r_:
+            walls.setdefault(p_.get("kind", "?"), []).append(round(r_.get("wall", 0.0), 1))
     fault_in = {k[9:]: v for k, v in stats.items() if k.startswith("fault_in:")}
     evidence = {
         "property_id": PROP,
@@ -637,6 +651,7 @@ def main(tier: str) -> int:
                 "gc_collect": stats.get("gc_collect", 0),
             },
             "namespace_noise_ignored": noise,
+            "interpreter_wall_s": {k: {"n": len(v), "max": max(v), "sum": round(sum(v), 1)} for k, v in walls.items()},
             "simulated_time": "n/a (no timers on this path); logical steps = operations",
             "runs_per_hour": round(len([r for r in results if r]) / wall * 3600, 1),
             "operations_per_hour": round((stats.get("ops_executed", 0) + stats.get("enum_faulted_conversions", 0)) / wall * 3600, 1),
